@@ -308,7 +308,7 @@ def c16_5(ctx):
     if "hdpubkey.child(account).child(offset)" in src:
         out.append(ctx.ok(spec, "leaf key = parent.child(branch).child(offset)", fn, mod, key="derivation"))
     else:
-        out.append(ctx.bad(spec, "leaf key is not parent.child(branch).child(offset)", fn, mod, key="derivation"))
+        out.append(ctx.err(spec, "leaf key derivation idiom parent.child(branch).child(offset) not recognised", fn, mod))
     # script: m, keys, n = len(key_records), OP_CHECKMULTISIG; address = P2WSH(sha256(script))
     if "number_to_op_code(self.quorum_m)" in src and "number_to_op_code(len(self.key_records))" in src and "commands.append(174)" in src \
             and "P2WSHScriptPubKey(sha256(witness_script.raw_serialize()))" in src:
@@ -526,6 +526,13 @@ def c16_11(ctx):
     return out
 
 
+def c16_12(ctx):
+    """MEMO: a derived branch / leaf key is not remembered under a key that does not determine it (fingerprint instead of xpub)"""
+    from sa.memo import memo_obligation
+    return memo_obligation(ctx, ["descriptor"], "two key records that share a master fingerprint would get each other's branch key, and the address is no longer the "
+                                                 "script over each cosigner's own child key")
+
+
 def c16_9(ctx):
     """the SLIP-132 version tables decide the network of every key record (and with it xpub text and address prefix)"""
     from rules.C08 import c08_5
@@ -544,5 +551,6 @@ OBLIGATIONS = [
     ("C16.9", "TABLE", c16_9),
     ("C16.10", "REGEX flags + verbatim", c16_10),
     ("C16.11", "PARALLEL LISTS", c16_11),
+    ("C16.12", "MEMO", c16_12),
 ]
 FLOORS = {"C16.1": 5, "C16.2": 2, "C16.3": 3, "C16.4": 4, "C16.5": 3}
